@@ -19,6 +19,7 @@ LETTERS = {
     "U": ["Q"],
     "T": ["T", 1, [[2.1, 8]]],
     "CL": ["CL", {1: "WINNER", 2: "LOSER"}],
+    "CL0": ["CL", {}],  # closed, results not yet declared (runners still ACTIVE); a later CL carries them
     "MD": ["MD"],
     "OPN": ["OPN"],
 }
@@ -54,7 +55,7 @@ def _mk_hooks():
     calls = []
 
     def closed(w, st, market, mb):
-        calls.append((st.idx, market.market_id, mb.status, tuple((r.selection_id, r.status) for r in mb.runners), mb.publish_time_epoch, market.closed, [(o.runner_status, o.market_type, o.each_way_divisor) for o in market.blotter]))
+        calls.append((st.idx, market.market_id, mb.status, tuple((r.selection_id, r.status) for r in mb.runners), mb.publish_time_epoch, market.closed, [(o.runner_status, o.market_type, o.each_way_divisor, o.selection_id) for o in market.blotter]))
 
     h.closed = closed
     h.calls = calls
@@ -149,10 +150,12 @@ def _one(args):
                 if c[4] not in [pts[u] for u in closing]:
                     out.append(core.v("C20.b", (mode, "-", "closing book", "time"), "callback with a book that is not a closing update", case))
                 # a) settlement fields on every order at the callback
-                for (rs, mt, ewd) in c[6]:
+                book_status = dict(c[3])
+                for (rs, mt, ewd, sel) in c[6]:
                     counts["clause:C20.a"] += 1
-                    if rs not in ("WINNER", "LOSER") or mt != mtype or (mtype == "EACH_WAY" and ewd != 4):
-                        out.append(core.v("C20.a", (mode, "-", "settlement field", "-"), "order at closure has runner_status=%r market_type=%r each_way_divisor=%r" % (rs, mt, ewd), case))
+                    # every order carries the runner's result as published by THIS closing book
+                    if rs != book_status.get(sel) or mt != mtype or (mtype == "EACH_WAY" and ewd != 4):
+                        out.append(core.v("C20.a", (mode, "-", "settlement field", "-"), "order at closure has runner_status=%r (closing book says %r) market_type=%r each_way_divisor=%r" % (rs, book_status.get(sel), mt, ewd), case))
         # c) cleared reports per episode
         co = [e for e in ev if type(e).__name__ == "ClearedOrdersMetaEvent" and e.event and e.event[0].market_id == mid]
         cm = [e for e in ev if type(e).__name__ == "ClearedMarketsEvent" and e.event.orders and e.event.orders[0].market_id == mid]
@@ -200,15 +203,163 @@ def _dedup(vs, per_key=1):
     return out
 
 
+# ---- live mode (E2): closure through the real queue, removal only after an hour, recorder mode ----
+LIVE_ALPHA = (("open", 0), ("close", 0), ("open", 1), ("close", 1), ("tick", 59), ("tick", 61))
+
+
+def _live_one(seq):
+    from mc import livex
+    from flumine.events import events
+
+    mids = ["1.100000001", "1.100000002"]
+    w = livex.LiveWorld([], strategies=("S0", "S1", "S2"), markets=mids)
+    w.start()
+    out = []
+    counts = {"clause:C20.b": 0, "clause:C20.d": 0, "clause:C20.f": 0, "live_closures": 0, "live_removals": 0, "live_reopens": 0, "live_kept_under_an_hour": 0}
+    case = dict(live=[list(e) for e in seq])
+    try:
+        fw = w.framework
+        s0, s1, s2 = w.strategies
+        # S1: empty market filter (receives every closure), S2: subscribed to another stream
+        s1.market_filter = {}
+        s1.streams = []
+        s2.streams = [type("OtherStream", (), {"stream_id": 424242})()]
+        calls = {0: 0, 1: 0, 2: 0}
+        for k, st in enumerate(w.strategies):
+            def pcm(market, mb, k=k):
+                calls[k] += 1
+            st.process_closed_market = pcm
+        # the initial books dispatched at start-up created both markets open
+        model = {m: dict(present=True, closed=False, closed_at=None) for m in mids}
+        exp_calls = {0: 0, 1: 0, 2: 0}
+        for ev in seq:
+            if ev[0] == "tick":
+                w.clock_ms += ev[1] * 60_000
+                w.set_clock()
+                continue
+            mid = mids[ev[1]]
+            w.clock_ms += 1000
+            w.set_clock()
+            now = w.clock_ms
+            st_ = model[mid]
+            if ev[0] == "open":
+                w.books[mid] = w._make_book(mid, "OPEN")
+                w.dispatch(w._book_event(mid))
+                if not st_["present"]:
+                    st_.update(present=True, closed=False, closed_at=None)
+                elif st_["closed"]:
+                    st_["closed"] = False
+                    counts["live_reopens"] += 1
+            else:
+                w.books[mid] = w._make_book(mid, "CLOSED")
+                w.dispatch(w._book_event(mid))
+                counts["live_closures"] += 1
+                if not st_["present"]:
+                    st_.update(present=True, closed=False, closed_at=None)
+                if not st_["closed"]:
+                    st_["closed"] = True
+                    st_["closed_at"] = now
+                exp_calls[0] += 1
+                exp_calls[1] += 1
+            # removal is one-directional: a market may only disappear at a closure, and only if it has been
+            # closed (since it last closed) for more than an hour; keeping it longer is allowed
+            counts["clause:C20.f"] += 1
+            present = {m.market_id for m in fw.markets}
+            bad = False
+            for m2, s2_ in model.items():
+                if s2_["present"] and m2 not in present:
+                    ok = ev[0] == "close" and s2_["closed"] and now - s2_["closed_at"] > 3600_000
+                    if not ok:
+                        held = (now - s2_["closed_at"]) / 60000.0 if s2_["closed_at"] else None
+                        out.append(core.v("C20.e", ("live", "-", "removal timing", "removed-too-early"), "after %s: market %s was removed although it has been closed for %s minutes" % (list(ev), m2, held), case))
+                        bad = True
+                    s2_.update(present=False, closed=False, closed_at=None)
+                    counts["live_removals"] += 1
+                elif s2_["present"] and s2_["closed"] and ev[0] == "close":
+                    counts["live_kept_under_an_hour"] += 1
+                if not s2_["present"] and m2 in present:
+                    out.append(core.v("C20.e", ("live", "-", "removal timing", "reappeared"), "market %s present again without data" % m2, case))
+                    bad = True
+            if bad:
+                break
+            counts["clause:C20.d"] += 1
+            for m in fw.markets:
+                if bool(m.closed) != model[m.market_id]["closed"]:
+                    out.append(core.v("C20.d", ("live", "-", "closed flag", "-"), "after %s: market %s closed=%s expected %s" % (list(ev), m.market_id, m.closed, model[m.market_id]["closed"]), case))
+            counts["clause:C20.b"] += 1
+            if calls != exp_calls:
+                out.append(core.v("C20.b", ("live", "-", "callback count", "subscribed" if calls[2] == exp_calls[2] else "unsubscribed"), "after %s: process_closed_market calls %s, expected %s (S0 subscribed, S1 empty filter, S2 other stream)" % (list(ev), calls, exp_calls), case))
+                break
+        if w.handler_exceptions:
+            out.append(core.v("C20.b", ("live", "-", "exception", "-"), w.handler_exceptions[0][-300:], case))
+    finally:
+        w.stop()
+    return dict(violations=_dedup(out), counts=counts, outcome=str((tuple(sorted(calls.items())),)))
+
+
+def _recorder_one(seq):
+    """raw-data (market recorder) mode: dict updates through _process_raw_data / _process_close_market"""
+    from mc import livex
+    from flumine.events import events
+
+    w = livex.LiveWorld([], strategies=("S0",), markets=["1.100000009"])
+    w.start()
+    out = []
+    counts = {"clause:C20.b": 0, "clause:C20.d": 0, "recorder_closures": 0}
+    case = dict(recorder=list(seq))
+    try:
+        fw = w.framework
+        s0 = w.strategies[0]
+        sid = s0.streams[0].stream_id
+        calls = []
+        raws = []
+        s0.process_closed_market = lambda market, datum: calls.append((market.market_id, datum.get("marketDefinition", {}).get("status") if isinstance(datum, dict) else "book"))
+        s0.process_raw_data = lambda clk, pt, datum: raws.append(datum.get("id"))
+        mid = "1.200000001"
+        exp_calls, exp_closed, present = 0, False, False
+        for n, ev in enumerate(seq):
+            w.clock_ms += 1000
+            w.set_clock()
+            datum = {"id": mid, "rc": []}
+            if ev in ("closed", "open-def"):
+                datum["marketDefinition"] = {"status": "CLOSED" if ev == "closed" else "OPEN", "eventId": "1", "marketType": "WIN"}
+            w.dispatch(events.RawDataEvent((sid, "clk", w.clock_ms, [datum])))
+            if not present:
+                present = True
+            elif exp_closed:
+                exp_closed = False  # data arriving again re-opens the market
+            if ev == "closed":
+                exp_calls += 1
+                exp_closed = True
+                counts["recorder_closures"] += 1
+            counts["clause:C20.b"] += 1
+            counts["clause:C20.d"] += 1
+            m = fw.markets.markets.get(mid)
+            if len(calls) != exp_calls:
+                out.append(core.v("C20.b", ("recorder", "-", "callback count", "-"), "after %s: %d process_closed_market calls, expected %d" % (seq[: n + 1], len(calls), exp_calls), case))
+                break
+            if m is None or bool(m.closed) != exp_closed:
+                out.append(core.v("C20.d", ("recorder", "-", "closed flag", "-"), "after %s: market closed=%s expected %s" % (seq[: n + 1], m and m.closed, exp_closed), case))
+                break
+            if len(raws) != n + 1:
+                out.append(core.v("C20.b", ("recorder", "-", "raw data delivery", "-"), "raw datum not delivered to the strategy", case))
+                break
+        if w.handler_exceptions:
+            out.append(core.v("C20.b", ("recorder", "-", "exception", "-"), w.handler_exceptions[0][-300:], case))
+    finally:
+        w.stop()
+    return dict(violations=_dedup(out), counts=counts, outcome="rec")
+
+
 def run(tier):
-    rep = core.Report("C20", tier, "E1 simx")
+    rep = core.Report("C20", tier, "E1 simx + E2 livex")
     thorough = tier == "thorough"
     maxlen = 5 if thorough else 4
-    alpha = ("U", "CL", "MD", "OPN", "T")
+    alpha = ("U", "CL", "MD", "OPN", "T", "CL0")
     seqs = []
     for n in range(1, maxlen + 1):
         for s in itertools.product(alpha, repeat=n):
-            if "CL" not in s:
+            if "CL" not in s and "CL0" not in s:
                 continue
             seqs.append(tuple(s))
     jobs = []
@@ -237,7 +388,20 @@ def run(tier):
         rep.merge_counts(r["counts"])
         if r["outcome"]:
             rep.outcomes.add(r["outcome"])
-    rep.need("closing_updates", "repeated_closes", "reopens", "episodes_with_orders", "unsubscribed_strategy_markets")
+    # live mode
+    depth = 6
+    lj = [seq for n in range(1, depth + 1) for seq in itertools.product(LIVE_ALPHA, repeat=n) if any(e[0] == "close" for e in seq) and (n < depth or (seq[-1][0] == "close" and sum(1 for e in seq if e[0] == "tick") >= 1))]
+    for r in core.pmap(_live_one, lj):
+        rep.add_violations(r["violations"])
+        rep.merge_counts(r["counts"])
+        rep.outcomes.add(r["outcome"])
+    rj = [seq for n in range(1, 6) for seq in itertools.product(("update", "closed", "open-def"), repeat=n) if "closed" in seq]
+    for r in core.pmap(_recorder_one, rj):
+        rep.add_violations(r["violations"])
+        rep.merge_counts(r["counts"])
+    rep.sample({"live": [list(e) for e in lj[len(lj) // 2]]})
+    jobs = jobs + lj + rj
+    rep.need("closing_updates", "repeated_closes", "reopens", "episodes_with_orders", "unsubscribed_strategy_markets", "live_closures", "live_removals", "live_reopens", "live_kept_under_an_hour", "recorder_closures")
     rep.states = len(jobs)
     rep.transitions = len(jobs)
     rep.traces = len(jobs)
@@ -251,7 +415,7 @@ def run(tier):
         "callbacks are counted per closing update, cleared reports per closure episode (open -> closed; a re-open starts a new one), as worded in the statement",
         "a market whose first update is already CLOSED is unknown to the framework: only absence of errors and of cleared reports is required",
         "clause e reads strategy._invested and SimulatedMiddleware.markets defensively (not evaluated if renamed)",
-        "live-mode clauses (removal only after an hour, recorder mode) are served by the E2 part",
+        "live mode: two markets, {update, close} of either and clock steps of 59 / 61 minutes in every order up to 6 events; recorder mode: raw dict updates with CLOSED / OPEN definitions",
     ]
     return rep.finish()
 
